@@ -22,6 +22,9 @@ Gen/Crc64.vos Gen/Crc64.vok Gen/Crc64.required_vos: Gen/Crc64.v
 Gen/Resp.vo Gen/Resp.glob Gen/Resp.v.beautified Gen/Resp.required_vo: Gen/Resp.v 
 Gen/Resp.vio: Gen/Resp.v 
 Gen/Resp.vos Gen/Resp.vok Gen/Resp.required_vos: Gen/Resp.v 
+Gen/Supervisor.vo Gen/Supervisor.glob Gen/Supervisor.v.beautified Gen/Supervisor.required_vo: Gen/Supervisor.v 
+Gen/Supervisor.vio: Gen/Supervisor.v 
+Gen/Supervisor.vos Gen/Supervisor.vok Gen/Supervisor.required_vos: Gen/Supervisor.v 
 Model/Backlog.vo Model/Backlog.glob Model/Backlog.v.beautified Model/Backlog.required_vo: Model/Backlog.v Base/Bytes.vo
 Model/Backlog.vio: Model/Backlog.v Base/Bytes.vio
 Model/Backlog.vos Model/Backlog.vok Model/Backlog.required_vos: Model/Backlog.v Base/Bytes.vos
@@ -46,6 +49,9 @@ Model/Slot.vos Model/Slot.vok Model/Slot.required_vos: Model/Slot.v Base/Bytes.v
 Model/SlotKeys.vo Model/SlotKeys.glob Model/SlotKeys.v.beautified Model/SlotKeys.required_vo: Model/SlotKeys.v Base/Bytes.vo Base/Table.vo Base/Dec.vo Spec/Crc16.vo Gen/Crc16.vo
 Model/SlotKeys.vio: Model/SlotKeys.v Base/Bytes.vio Base/Table.vio Base/Dec.vio Spec/Crc16.vio Gen/Crc16.vio
 Model/SlotKeys.vos Model/SlotKeys.vok Model/SlotKeys.required_vos: Model/SlotKeys.v Base/Bytes.vos Base/Table.vos Base/Dec.vos Spec/Crc16.vos Gen/Crc16.vos
+Model/Supervisor.vo Model/Supervisor.glob Model/Supervisor.v.beautified Model/Supervisor.required_vo: Model/Supervisor.v Base/Bytes.vo
+Model/Supervisor.vio: Model/Supervisor.v Base/Bytes.vio
+Model/Supervisor.vos Model/Supervisor.vok Model/Supervisor.required_vos: Model/Supervisor.v Base/Bytes.vos
 Proofs/BacklogProofs.vo Proofs/BacklogProofs.glob Proofs/BacklogProofs.v.beautified Proofs/BacklogProofs.required_vo: Proofs/BacklogProofs.v Base/Bytes.vo Base/Table.vo Model/Backlog.vo
 Proofs/BacklogProofs.vio: Proofs/BacklogProofs.v Base/Bytes.vio Base/Table.vio Model/Backlog.vio
 Proofs/BacklogProofs.vos Proofs/BacklogProofs.vok Proofs/BacklogProofs.required_vos: Proofs/BacklogProofs.v Base/Bytes.vos Base/Table.vos Model/Backlog.vos
@@ -73,6 +79,9 @@ Proofs/SlotWitness.vos Proofs/SlotWitness.vok Proofs/SlotWitness.required_vos: P
 Proofs/SlotWitnessCheck.vo Proofs/SlotWitnessCheck.glob Proofs/SlotWitnessCheck.v.beautified Proofs/SlotWitnessCheck.required_vo: Proofs/SlotWitnessCheck.v Base/Bytes.vo Base/Dec.vo Spec/Crc16.vo Spec/Slot.vo Gen/Crc16.vo Model/SlotKeys.vo Proofs/SlotWitness.vo
 Proofs/SlotWitnessCheck.vio: Proofs/SlotWitnessCheck.v Base/Bytes.vio Base/Dec.vio Spec/Crc16.vio Spec/Slot.vio Gen/Crc16.vio Model/SlotKeys.vio Proofs/SlotWitness.vio
 Proofs/SlotWitnessCheck.vos Proofs/SlotWitnessCheck.vok Proofs/SlotWitnessCheck.required_vos: Proofs/SlotWitnessCheck.v Base/Bytes.vos Base/Dec.vos Spec/Crc16.vos Spec/Slot.vos Gen/Crc16.vos Model/SlotKeys.vos Proofs/SlotWitness.vos
+Proofs/SupervisorProofs.vo Proofs/SupervisorProofs.glob Proofs/SupervisorProofs.v.beautified Proofs/SupervisorProofs.required_vo: Proofs/SupervisorProofs.v Base/Bytes.vo Model/Supervisor.vo
+Proofs/SupervisorProofs.vio: Proofs/SupervisorProofs.v Base/Bytes.vio Model/Supervisor.vio
+Proofs/SupervisorProofs.vos Proofs/SupervisorProofs.vok Proofs/SupervisorProofs.required_vos: Proofs/SupervisorProofs.v Base/Bytes.vos Model/Supervisor.vos
 Props/C09.vo Props/C09.glob Props/C09.v.beautified Props/C09.required_vo: Props/C09.v Base/Bytes.vo Model/Backlog.vo Model/Pipe.vo Proofs/PipeProofs.vo
 Props/C09.vio: Props/C09.v Base/Bytes.vio Model/Backlog.vio Model/Pipe.vio Proofs/PipeProofs.vio
 Props/C09.vos Props/C09.vok Props/C09.required_vos: Props/C09.v Base/Bytes.vos Model/Backlog.vos Model/Pipe.vos Proofs/PipeProofs.vos
@@ -91,6 +100,9 @@ Props/C15.vos Props/C15.vok Props/C15.required_vos: Props/C15.v Base/Bytes.vos B
 Props/C18.vo Props/C18.glob Props/C18.v.beautified Props/C18.required_vo: Props/C18.v Base/Bytes.vo Model/Backlog.vo Proofs/BacklogProofs.vo
 Props/C18.vio: Props/C18.v Base/Bytes.vio Model/Backlog.vio Proofs/BacklogProofs.vio
 Props/C18.vos Props/C18.vok Props/C18.required_vos: Props/C18.v Base/Bytes.vos Model/Backlog.vos Proofs/BacklogProofs.vos
+Props/C20.vo Props/C20.glob Props/C20.v.beautified Props/C20.required_vo: Props/C20.v Base/Bytes.vo Model/Supervisor.vo Proofs/SupervisorProofs.vo Gen/Supervisor.vo
+Props/C20.vio: Props/C20.v Base/Bytes.vio Model/Supervisor.vio Proofs/SupervisorProofs.vio Gen/Supervisor.vio
+Props/C20.vos Props/C20.vok Props/C20.required_vos: Props/C20.v Base/Bytes.vos Model/Supervisor.vos Proofs/SupervisorProofs.vos Gen/Supervisor.vos
 Spec/Crc16.vo Spec/Crc16.glob Spec/Crc16.v.beautified Spec/Crc16.required_vo: Spec/Crc16.v Base/Bytes.vo Base/Table.vo
 Spec/Crc16.vio: Spec/Crc16.v Base/Bytes.vio Base/Table.vio
 Spec/Crc16.vos Spec/Crc16.vok Spec/Crc16.required_vos: Spec/Crc16.v Base/Bytes.vos Base/Table.vos
